@@ -5,6 +5,11 @@
 //!   mutation `d<k>`/`u<k>`/`s<k>`: the PullParser events with event k dropped / duplicated /
 //!   swapped with its successor (k modulo the number of events) are fed to the public
 //!   `analysis::parse_events` (a malformed stream; a panic of the collector is an outcome).
+//!   mutation `j<k>`: self-test of the monitor.  The recipe of the real parse is damaged after the fact
+//!   (tamper k modulo NTAMPER, see `tamper`) and then dumped and monitored; `R` starts with
+//!   `tampered=<name>` (or `tampered=none` when that damage does not apply to this recipe).  The check
+//!   compares the monitor's verdict with the proved decision procedure of the Coq statement on the
+//!   same damaged recipe; such a recipe is never a finding about /repo.
 //! Output: `EV <events> ;; OR <oracles> ;; R <recipe dump> ;; V <monitor>`
 //!   EV: the events that were analysed, in the token encoding read by runner/analysis_main.ml
 //!       (`panic` when the parser itself panicked - nothing to analyse)
@@ -599,9 +604,10 @@ fn monitor(r: &ScalableRecipe, valid: bool) -> String {
                 }
             }
             (Some((j, IngredientReferenceTarget::Step)), None) => {
-                // not shown in any step (components mode): some section has a step there
+                // not shown in any step (components mode), so "the same section" is not defined: some
+                // section has a step there (stricter than Model/AnalysisSpec.v, which is silent here)
                 if !r.sections.iter().any(|s| s.content.get(j).map(|c| c.is_step()).unwrap_or(false)) {
-                    bad.push("step_reference");
+                    bad.push("unlisted_step_reference");
                 }
             }
             (Some((j, IngredientReferenceTarget::Section)), Some((si, _))) => {
@@ -611,7 +617,7 @@ fn monitor(r: &ScalableRecipe, valid: bool) -> String {
             }
             (Some((j, IngredientReferenceTarget::Section)), None) => {
                 if j >= r.sections.len() {
-                    bad.push("section_reference");
+                    bad.push("unlisted_section_reference");
                 }
             }
             _ => {}
@@ -628,6 +634,170 @@ fn monitor(r: &ScalableRecipe, valid: bool) -> String {
         "-".into()
     } else {
         bad.join(",")
+    }
+}
+
+// ---------------------------------------------------------------- damaged recipes (monitor self-test)
+
+const NTAMPER: usize = 16;
+
+fn ing_rel(kind: &str, j: usize) -> cooklang::model::IngredientRelation {
+    serde_json::from_value(serde_json::json!({"type": "reference", "references_to": j, "reference_target": kind}))
+        .expect("IngredientRelation from JSON")
+}
+
+fn ing_def(rf: Vec<usize>, dis: bool) -> cooklang::model::IngredientRelation {
+    serde_json::from_value(serde_json::json!({"type": "definition", "referenced_from": rf, "defined_in_step": dis}))
+        .expect("IngredientRelation from JSON")
+}
+
+/// position (section, content index, item index) of the first step item satisfying `p`
+fn find_item(r: &ScalableRecipe, p: impl Fn(&Item) -> bool) -> Option<(usize, usize, usize)> {
+    for (si, s) in r.sections.iter().enumerate() {
+        for (ci, c) in s.content.iter().enumerate() {
+            if let Content::Step(st) = c {
+                for (ii, it) in st.items.iter().enumerate() {
+                    if p(it) {
+                        return Some((si, ci, ii));
+                    }
+                }
+            }
+        }
+    }
+    None
+}
+
+fn step_mut(r: &mut ScalableRecipe, si: usize, ci: usize) -> &mut cooklang::model::Step {
+    match &mut r.sections[si].content[ci] {
+        Content::Step(st) => st,
+        _ => unreachable!(),
+    }
+}
+
+/// Damages `r` so that one conjunct of C06 fails; returns the name of the damage or None.
+fn tamper(r: &mut ScalableRecipe, k: usize) -> Option<&'static str> {
+    use cooklang::model::ComponentRelation as CR;
+    let any_step = find_item(r, |_| true).map(|(si, ci, _)| (si, ci));
+    let ing_item = find_item(r, |it| matches!(it, Item::Ingredient { .. }));
+    match k % NTAMPER {
+        0 => {
+            let (si, ci) = any_step?;
+            let n = r.ingredients.len();
+            step_mut(r, si, ci).items.push(Item::Ingredient { index: n });
+            Some("index_out_of_range")
+        }
+        1 => {
+            let (si, ci, ii) = ing_item?;
+            let it = step_mut(r, si, ci).items[ii].clone();
+            step_mut(r, si, ci).items.push(it);
+            Some("item_repeated")
+        }
+        2 => {
+            let i = r.ingredients.iter().position(|g| !g.relation.referenced_from().is_empty())?;
+            let mut rf = r.ingredients[i].relation.referenced_from().to_vec();
+            rf.pop();
+            let dis = r.ingredients[i].relation.is_defined_in_step().unwrap_or(false);
+            r.ingredients[i].relation = ing_def(rf, dis);
+            Some("back_link_removed")
+        }
+        3 => {
+            let i = r.ingredients.iter().position(|g| !g.relation.referenced_from().is_empty())?;
+            let mut rf = r.ingredients[i].relation.referenced_from().to_vec();
+            rf.push(rf[0]);
+            let dis = r.ingredients[i].relation.is_defined_in_step().unwrap_or(false);
+            r.ingredients[i].relation = ing_def(rf, dis);
+            Some("back_link_twice")
+        }
+        4 => {
+            let i = r.ingredients.iter().position(|g| {
+                matches!(g.relation.references_to(), Some((_, IngredientReferenceTarget::Ingredient)))
+            })?;
+            r.ingredients[i].relation = ing_rel("ingredient", i);
+            Some("reference_to_itself")
+        }
+        5 => {
+            let (si, ci, ii) = ing_item?;
+            let _ = si;
+            let idx = match step_mut(r, si, ci).items[ii] {
+                Item::Ingredient { index } => index,
+                _ => unreachable!(),
+            };
+            if idx >= r.ingredients.len() || r.ingredients[idx].relation.references_to().is_some()
+                || !r.ingredients[idx].relation.referenced_from().is_empty() {
+                return None;
+            }
+            r.ingredients[idx].relation = ing_rel("step", ci);
+            Some("step_reference_to_own_step")
+        }
+        6 => {
+            let (si, ci, ii) = ing_item?;
+            let idx = match step_mut(r, si, ci).items[ii] {
+                Item::Ingredient { index } => index,
+                _ => unreachable!(),
+            };
+            if idx >= r.ingredients.len() || r.ingredients[idx].relation.references_to().is_some()
+                || !r.ingredients[idx].relation.referenced_from().is_empty() {
+                return None;
+            }
+            r.ingredients[idx].relation = ing_rel("section", si);
+            Some("section_reference_to_own_section")
+        }
+        7 => {
+            let (si, ci) = any_step?;
+            step_mut(r, si, ci).number += 1;
+            Some("step_number_off")
+        }
+        8 => {
+            let (si, ci) = any_step?;
+            step_mut(r, si, ci).items.clear();
+            Some("step_emptied")
+        }
+        9 => {
+            let s = r.sections.last_mut()?;
+            s.content.push(Content::Text(String::new()));
+            Some("empty_text_block")
+        }
+        10 => {
+            let (si, ci) = any_step?;
+            step_mut(r, si, ci).items.push(Item::Text { value: String::new() });
+            Some("empty_text_item")
+        }
+        11 => {
+            r.sections.push(cooklang::model::Section { name: None, content: vec![] });
+            Some("empty_section")
+        }
+        12 => {
+            let (si, ci) = any_step?;
+            let n = r.timers.len();
+            r.timers.push(cooklang::model::Timer { name: None, quantity: None });
+            step_mut(r, si, ci).items.push(Item::Timer { index: n });
+            Some("timer_without_name_and_quantity")
+        }
+        13 => {
+            // a reference (REF modifier) turned into a definition, its back link removed: the relations
+            // stay consistent, only "reference <-> REF modifier" of a valid result fails
+            let i = r.ingredients.iter().position(|g| {
+                matches!(g.relation.references_to(), Some((_, IngredientReferenceTarget::Ingredient)))
+            })?;
+            let (j, _) = r.ingredients[i].relation.references_to().unwrap();
+            let rf: Vec<usize> = r.ingredients[j].relation.referenced_from().iter().copied().filter(|x| *x != i).collect();
+            let dis = r.ingredients[j].relation.is_defined_in_step().unwrap_or(false);
+            r.ingredients[j].relation = ing_def(rf, dis);
+            r.ingredients[i].relation = ing_def(vec![], true);
+            Some("ref_modifier_on_definition")
+        }
+        14 => {
+            let i = r.ingredients.iter().position(|g| {
+                matches!(g.relation.references_to(), Some((_, IngredientReferenceTarget::Ingredient)))
+            })?;
+            r.ingredients[i].name = "zz\u{1}zz".to_string();
+            Some("reference_renamed")
+        }
+        _ => {
+            let i = r.cookware.iter().position(|c| c.relation.references_to().is_some())?;
+            r.cookware[i].relation = CR::Reference { references_to: i };
+            Some("cookware_reference_to_itself")
+        }
     }
 }
 
@@ -681,6 +851,24 @@ fn main() {
                 return format!("EV panic ;; OR - ;; {}", r);
             }
         };
+        if let Some(k) = mutation.strip_prefix('j') {
+            let k = k.parse::<usize>().unwrap_or(0);
+            let or = collect_oracles(&evs, ext, conv);
+            let parser = CooklangParser::new(ext, conv.clone());
+            let r = match guarded(|| {
+                let res = parser.parse(&input);
+                let v = res.is_valid();
+                res.into_output().map(|mut r| {
+                    let name = tamper(&mut r, k).unwrap_or("none");
+                    (name, dump(&r), monitor(&r, v), v)
+                })
+            }) {
+                Ok(Some((n, d, m, v))) => format!("R tampered={} valid={} {} ;; V {}", n, if v { 1 } else { 0 }, d, m),
+                Ok(None) => "R none ;; V -".to_string(),
+                Err(_) => "R panic ;; V -".to_string(),
+            };
+            return format!("EV - ;; OR {} ;; {}", render_oracles(&or), r);
+        }
         let evs = if mutation == "-" { evs } else { mutate(&evs, mutation) };
         let mut toks: Vec<String> = vec![evs.len().to_string()];
         for e in &evs {
